@@ -322,3 +322,48 @@ func init() {
 	register(&Scenario{Prop: "C10", Name: "c10/close-with-backlog", Quick: []Bound{{0, 0}}, Thorough: []Bound{{1, 0}}, Body: closeWithBacklog("C10"), MaxSteps: 400000, BudgetQ: 15, BudgetT: 200, OnlyKeys: []string{"C10/", "panic/", "livelock/", "hang/"}})
 	register(&Scenario{Prop: "C20", Name: "c20/close-with-backlog", Quick: []Bound{{0, 0}}, Thorough: []Bound{{1, 0}}, Body: closeWithBacklog("C20"), MaxSteps: 400000, BudgetQ: 15, BudgetT: 200, OnlyKeys: []string{"C20/", "panic/", "livelock/", "hang/"}})
 }
+
+// Close after a server-side stream write could not be encoded (the client has received the
+// failed message's error on that stream): Stream.Close still tells the server, whose handler,
+// blocked in ReadMessage, returns; later operations on the stream return at once.
+func c10CloseAfterBad(x *X) {
+	mode := x.Choose(2)
+	so := srvOpts{bufSize: 64, codec: rejectBytesCodec}
+	if mode == 1 {
+		so.pipelining = true
+	}
+	f := newFixture(so, cliOpts{bufSize: 64})
+	f.w.badPush = true
+	st, err := f.conn.NewStream("StreamSvc.Push")
+	if err != nil {
+		x.Fail("C10/open-failed/after-unencodable-message", "NewStream: %v", err)
+		return
+	}
+	m := append([]byte{0xBD}, streamMsg(0x31, 0)...)
+	st.WriteMessage(&m)
+	var back []byte
+	st.ReadMessage(nil, &back)
+	vs.Quiesce()
+	closed := false
+	vs.GoNamed("closer", func() { st.Close(); closed = true })
+	vs.Quiesce()
+	if !closed {
+		x.Fail("C10/close-blocked/after-unencodable-message", "Stream.Close did not return")
+	}
+	if f.w.streamsEx != f.w.streamsIn {
+		x.Fail("C10/handler-blocked/after-unencodable-message", "the client closed a stream on which a server-side write had failed to encode: %d handlers entered, %d returned (the connection is still up)", f.w.streamsIn, f.w.streamsEx)
+	}
+	c := newUcall(0x51, 0, 20, formCall)
+	c.spawn(f.conn)
+	vs.Quiesce()
+	if !c.ret || c.err != nil {
+		x.Fail("C10/later-op-blocked/after-unencodable-message", "a call on the same connection afterwards: returned=%v err=%v", c.ret, c.err)
+	}
+	x.Outcome("mode=%d handlers=%d/%d", mode, f.w.streamsEx, f.w.streamsIn)
+	f.conn.Close()
+	vs.Quiesce()
+}
+
+func init() {
+	register(&Scenario{Prop: "C10", Name: "c10/close-after-unencodable-message", Quick: []Bound{{0, 0}, {1, 0}}, Thorough: []Bound{{2, 0}}, Body: c10CloseAfterBad, BudgetQ: 15})
+}
